@@ -26,6 +26,7 @@ from . import units as U
 from . import world as W
 from .ops_io import IOOpsMixin
 
+HERE = os.path.dirname(os.path.abspath(__file__))
 REPO_CIJ = os.path.realpath(os.environ.get("CIJSIM_REPO", "/repo")) + "/cij/"
 
 
@@ -304,6 +305,11 @@ class Runner(IOOpsMixin):
             if "injected" in str(e):
                 injected = "alloc-fail"
         except BaseException as e:  # noqa
+            tb = traceback.extract_tb(e.__traceback__)
+            injected_site = tb and (tb[-1].filename.endswith("seams.py") or tb[-1].name == "local_trace")
+            if tb and tb[-1].filename.startswith(HERE) and not injected_site and not (isinstance(e, LookupError) and str(e).strip("'") in ("no-handle", "no-stored-output")):
+                # raised by the simulator's own code, not by cij or a library under it: a harness error, never an observation
+                raise RuntimeError(f"harness bug in {kind} handler: {type(e).__name__}: {e} at {tb[-1].filename}:{tb[-1].lineno}") from e
             rec["status"] = "exc"
             rec["exc"] = [type(e).__name__, norm_msg(e, self.root)]
             rec["where"] = self._where(e)
